@@ -1233,7 +1233,7 @@ func c19Phases(thorough bool) []*c19Phase {
 	// 2c. The same two-generation layouts with and without LTX files on a 10 ms time axis: all files of a layout are
 	// created within one or two wall-clock seconds (ordering decisions must not depend on a coarser clock).
 	ps = append(ps, &c19Phase{Name: "g2-subsecond", UnitMS: 10,
-		Desc:  "as arbitration-g2 plus the same histories without LTX files, 10 ms per time unit (files 100 ms apart); removal of none / every single v3 file; T in latest + exact mtime of every file + first-1 + last+1",
+		Desc: "as arbitration-g2 plus the same histories without LTX files, 10 ms per time unit (files 100 ms apart); removal of none / every single v3 file; T in latest + exact mtime of every file + first-1 + last+1",
 		Units: append(c19Units(c19Hists("upd", 512, [][]int{{1}, {1}}, [][]int{{2}, {1, 1}}), []string{"interleaved", "newer"}, true, "exact", "v3"),
 			c19Units(c19Hists("upd", 512, [][]int{{1}, {1}}, [][]int{{2}, {1, 1}}), []string{""}, true, "exact", "v3")...)})
 	// 3. Three transactions / three indexes, reduced timestamps.
